@@ -233,7 +233,7 @@ def cargo_kani(scratch, crate, harnesses, extra=(), timeout=3600, jobs=None):
     env["CARGO_TARGET_DIR"] = TARGET
     env.pop("RUSTUP_TOOLCHAIN", None)
     cmd = ["cargo", "kani", "--no-default-features", "-Z", "function-contracts", "-Z", "stubbing", "-Z", "unstable-options",
-           "--harness-timeout", os.environ.get("VERIF_HARNESS_TIMEOUT", "900"),
+           "--harness-timeout", os.environ.get("VERIF_HARNESS_TIMEOUT", "2700"),
            "--output-format", "terse", "-j", str(jobs or min(8, max(1, len(harnesses))))]
     for h in harnesses:
         cmd += ["--harness", h]
